@@ -73,6 +73,23 @@ def tdb_scenarios(start):
                 yield {"id": cid, "cfg": cfg, "pre": [], "entries": ents}
 
 
+def twodigit_scenarios(start):
+    """databases with two digits next to db lists whose members are their decimal prefixes (db lists match whole numbers)"""
+    cid = start
+    for mode in ("sync", "restore", "incr"):
+        for dbcfg, dbname in DB_CFGS[1:]:
+            cfg = {"mode": mode, "parallel": 2, "tdb": -1, "key_exists": "none", "target": {"version": "5.0.7"}, "sched": "free",
+                   "filter_lua": False, "fslot": []}
+            cfg.update(dbcfg)
+            ents, eid = [], 0
+            for db in (1, 10, 12, 2, 11, 0):
+                for k in ("a", "b"):
+                    eid += 1
+                    ents.append({"id": eid, "db": db, "key": "%s%d-%d" % (k, db, eid), "kind": "string", "type": -1})
+            cid += 1
+            yield {"id": cid, "cfg": cfg, "pre": [], "entries": ents}
+
+
 def _slot(key):
     """only used to pick a slot some key of the scenario falls into (the judge is Filter.tla's own Slot)"""
     i = key.find(b"{")
@@ -140,6 +157,7 @@ def run(tier, seed, replay=None):
             rest = [c for c in cases if c not in must]
             cases = must + rnd.sample(rest, 90)
         cases += list(tdb_scenarios(100000))
+        cases += list(twodigit_scenarios(150000))
         cases += list(random_scenarios(random.Random(seed * 31 + 5), 200000, 400 if thorough else 25))
         def extra(ev, c, ent):
             cfg = c["cfg"] if c else {}
